@@ -23,5 +23,5 @@ tail -1 /tmp/confirm_$NAME.tests >> $LOG
 RES=$(tail -1 /tmp/confirm_$NAME.tests)
 cd /; git -C /repo worktree remove --force $WT
 OK=no
-if [ $APPLY = 0 ] && [ $D0 = 0 ] && [ $D1 != 0 ] && echo "$RES" | grep -q "90 passed" && ! echo "$RES" | grep -q "failed"; then OK=yes; fi
+if [ $APPLY = 0 ] && [ $D0 = 0 ] && [ $D1 != 0 ] && echo "$RES" | grep -q "90 passed" && ! echo "$RES" | grep -q " failed"; then OK=yes; fi
 echo "CONFIRMED=$OK (apply=$APPLY demo_unchanged_exit=$D0 demo_changed_exit=$D1 tests: $RES)" | tee -a $LOG
